@@ -7,9 +7,13 @@
 (* Small quantities (indices, bit positions, byte counts, shift amounts,    *)
 (* window sizes) are always TLC integers.                                   *)
 (***************************************************************************)
-EXTENDS Integers, Sequences, BigNat
+EXTENDS Integers, Sequences, BigNat, SequencesExt
 
 CONSTANT BIG
+
+\* the sequence hi, hi-1, ..., lo (empty when hi < lo)
+DownTo(hi, lo) == [j \in 1..(hi - lo + 1) |-> hi + 1 - j] \o <<>>
+UpTo(lo, hi)   == [j \in 1..(hi - lo + 1) |-> lo + j - 1] \o <<>>
 
 N(n)        == IF BIG THEN BnFromInt(n) ELSE n          \* literal n >= 0
 NZero       == N(0)
@@ -63,9 +67,8 @@ IntToBytesLE(a, n) == IF n = 0 THEN <<>> ELSE <<a % 256>> \o IntToBytesLE(a \div
 NToBytesLE(a, n) == IF BIG THEN BnToBytesLE(a, n) ELSE IntToBytesLE(a, n)
 \* value of a little-endian byte string reduced modulo m (Horner from the top byte, so
 \* that toy values never leave the 32-bit range)
-RECURSIVE HornerBE(_, _, _, _)
-HornerBE(bs, i, acc, m) == IF i = 0 THEN acc ELSE HornerBE(bs, i - 1, (acc * 256 + bs[i]) % m, m)
-NBytesLEMod(bs, m) == IF BIG THEN BnMod(BnNorm(bs), m) ELSE HornerBE(bs, Len(bs), 0, m)
+NBytesLEMod(bs, m) == IF BIG THEN BnMod(BnNorm(bs), m)
+                      ELSE FoldLeft(LAMBDA acc, i : (acc * 256 + bs[i]) % m, 0, DownTo(Len(bs), 1))
 \* exact value of a little-endian byte string (toy: must fit)
 RECURSIVE IntFromBytesLE(_, _)
 IntFromBytesLE(bs, i) == IF i > Len(bs) THEN 0 ELSE bs[i] + 256 * IntFromBytesLE(bs, i + 1)
